@@ -22,6 +22,14 @@ pub trait Tyop { fn y(&self) -> u64; }
 #[cglue_trait]
 pub trait Tbop { fn b(&self) -> u64; fn a(&self) -> u64; }
 
+/// a C-side-only (#[vtbl_only]) method declared BETWEEN ordinary ones still owns its declaration-order slot
+#[cglue_trait]
+pub trait Tvo {
+    fn vo_first(&self) -> u64;
+    #[vtbl_only]
+    fn vo_second(&self) -> u64 { 2 }
+    fn vo_third(&self) -> u64;
+}
 macro_rules! impl_all { ($t:ty, $k:expr) => {
     impl Tzed for $t {
         fn z2(&self) -> u64 { self.v ^ 1 ^ $k }
@@ -33,6 +41,7 @@ macro_rules! impl_all { ($t:ty, $k:expr) => {
     impl Tabc for $t { fn q(&self) -> u64 { self.v ^ 3 ^ $k } }
     impl Tyop for $t { fn y(&self) -> u64 { self.v ^ 4 ^ $k } }
     impl Tbop for $t { fn b(&self) -> u64 { self.v ^ 6 ^ $k } fn a(&self) -> u64 { self.v ^ 7 ^ $k } }
+    impl Tvo for $t { fn vo_first(&self) -> u64 { self.v ^ 11 } fn vo_second(&self) -> u64 { self.v ^ 12 } fn vo_third(&self) -> u64 { self.v ^ 13 } }
 } }
 impl_all!(Imp, 0);
 impl_all!(ImpY, 16);
@@ -42,6 +51,12 @@ cglue_trait_group!(Grp, { Tzed, Tabc }, { Tyop, Tbop });
 cglue_impl_group!(Imp, Grp, { Tyop, Tbop });
 cglue_impl_group!(ImpY, Grp, { Tyop });
 cglue_impl_group!(ImpNone, Grp, {});
+
+/// aliases whose order DIFFERS from the order of the underlying trait names: slots follow the alias
+/// (the name the vtable field and the C header carry)
+cglue_trait_group!(GAlias, { Tzed = Mzed, Tabc = Nabc }, { Tyop = Abop, Tbop = Zyop });
+cglue_impl_group!(Imp, GAlias, { Tyop = Abop, Tbop = Zyop });
+cglue_impl_group!(ImpY, GAlias, { Tyop = Abop });
 
 #[cfg(kani)]
 mod verif;
